@@ -130,7 +130,19 @@ func classType(cls []byte) int {
 	return classTable[strings.TrimPrefix(string(cls), marshalPrefix)]
 }
 
-// noCollClass: the exclusion of C04_decode_encode_partial (KF-C04-1)
+// customType: the type id of a custom option: the mapped native type; a class the table maps to a
+// collection / tuple kind (a bare marshal class name: no element types follow) stays custom
+func customType(cls []byte) int {
+	switch t := classType(cls); t {
+	case 0x20, 0x21, 0x22, 0x31:
+		return 0
+	default:
+		return t
+	}
+}
+
+// noCollClass: no custom class that names a bare collection / tuple marshal class (the inputs of the
+// former finding KF-C04-1; only used to label the distribution)
 func (t *typeDesc) noCollClass() bool {
 	if t.kind == 'c' {
 		switch classType(t.cls) {
